@@ -61,15 +61,45 @@ Definition c09_rejected_ok (p : node * svc_step) : bool :=
 Definition c09_no_panic (p : node * svc_step) : bool :=
   match ss_result (snd p) with SErrMachine ErrPanic => false | _ => true end.
 
+(* (d) non-interference: once anyone but the counterparty has sent a message carrying a swap's id, every later
+   message of the counterparty for that swap must still do exactly what it does according to the model (which
+   ignores third parties altogether): same node, same effects, same result *)
+Definition step_agrees (dec : list (string * (string * Z * Z))) (pre : node) (s : svc_step) : bool :=
+  let '(n', es, res) := svc_model dec pre (ss_op s) (ss_world s) in
+  node_eqb n' (ss_node s) && list_eqb effect_eqb es (ss_effects s) && svc_result_eqb res (ss_result s).
+
+Fixpoint c09_interference (dec : list (string * (string * Z * Z))) (pre : node) (foreign_ids : list string)
+  (steps : list svc_step) : list bool :=
+  match steps with
+  | [] => []
+  | s :: r =>
+    let '(ok, fids) :=
+      match ss_op s with
+      | SvMsg sender m =>
+          if is_request m then (true, foreign_ids) else
+          match assoc_str (msg_id m) (n_active pre) with
+          | Some mach =>
+              if String.eqb (d_peer (m_data mach)) sender
+              then ((if existsb (String.eqb (msg_id m)) foreign_ids then step_agrees dec pre s else true), foreign_ids)
+              else (true, msg_id m :: foreign_ids)
+          | None => (true, msg_id m :: foreign_ids)
+          end
+      | _ => (true, foreign_ids)
+      end in
+    ok :: c09_interference dec (ss_node s) fids r
+  end.
+
 Definition c09_monitor (c : svc_case) : bool :=
   forallb (fun p => c09_foreign_ok p && c09_reuse_ok p && c09_rejected_ok p && c09_no_panic p)
-          (with_pre (vc_pre c) (vc_steps c)).
+          (with_pre (vc_pre c) (vc_steps c)) &&
+  forallb (fun b => b) (c09_interference (vc_decode c) (vc_pre c) [] (vc_steps c)).
 
-(* which clause fails first (for signatures): 1 foreign, 2 reuse, 3 rejected, 4 panic *)
+(* which clause fails first (for signatures): 1 foreign, 2 reuse, 3 rejected, 4 panic, 5 interference *)
 Definition c09_clauses (c : svc_case) : list nat :=
   flat_map (fun p => ((if c09_foreign_ok p then [] else [1%nat]) ++ (if c09_reuse_ok p then [] else [2%nat]) ++
                      (if c09_rejected_ok p then [] else [3%nat]) ++ (if c09_no_panic p then [] else [4%nat]))%list)
-           (with_pre (vc_pre c) (vc_steps c)).
+           (with_pre (vc_pre c) (vc_steps c)) ++
+  (if forallb (fun b => b) (c09_interference (vc_decode c) (vc_pre c) [] (vc_steps c)) then [] else [5%nat]).
 
 (* ---------------- C10 ---------------- *)
 (* the channels of the node's non-terminal swaps: those in the active map and those only in the
